@@ -17,15 +17,17 @@ def schemas(k):
         "rep_i3x2": (pk.PackRepeat(pk.PackIntMod(3), 2), [3, 3]),
         "list_i5_repb2": (pk.PackList([pk.PackIntMod(5), pk.PackRepeat(pk.PackBool(), 2)]), [5, "b", "b"]),
         "rep_list_x2": (pk.PackRepeat(pk.PackList([pk.PackBool(), pk.PackIntMod(3)]), 2), ["b", 3, "b", 3]),
+        "list_i1_b": (pk.PackList([pk.PackIntMod(1), pk.PackBool()]), [1, "b"]),      # a bounded integer with one value: a zero-width field
     }
 
 SHAPES = {   # how the flat leaves v0.. are arranged into the structured value
     "bool": lambda v: v[0], "int2": lambda v: v[0], "int3": lambda v: v[0], "int5": lambda v: v[0], "int8": lambda v: v[0],
     "int17": lambda v: v[0], "int64": lambda v: v[0], "list_b_i3": lambda v: [v[0], v[1]], "rep_i3x2": lambda v: [v[0], v[1]],
     "list_i5_repb2": lambda v: [v[0], [v[1], v[2]]], "rep_list_x2": lambda v: [[v[0], v[1]], [v[2], v[3]]],
+    "list_i1_b": lambda v: [v[0], v[1]],
 }
 NLEAVES = {"int64": 1, "bool": 1, "int2": 1, "int3": 1, "int5": 1, "int8": 1, "int17": 1, "list_b_i3": 2, "rep_i3x2": 2,
-           "list_i5_repb2": 3, "rep_list_x2": 4}
+           "list_i5_repb2": 3, "rep_list_x2": 4, "list_i1_b": 2}
 
 
 def leaf_dom(k, name, secret=False):
@@ -130,7 +132,7 @@ def build(n=4, tier="quick"):
         if "pow" in e.tags:
             continue             # operand reuse after a secret-exponent power belongs to C05
         ents.append(e)
-    names = list(SHAPES) if tier != "quick" else ["bool", "int3", "int5", "int8", "int17", "int64", "list_b_i3", "rep_i3x2", "list_i5_repb2"]
+    names = list(SHAPES) if tier != "quick" else ["bool", "int3", "int5", "int8", "int17", "int64", "list_b_i3", "rep_i3x2", "list_i5_repb2", "list_i1_b"]
     for nm in names:
         ins = tuple("v%d" % i for i in range(NLEAVES[nm]))
         ents.append(Entry("pack_plain_" + nm, plain_roundtrip(nm), ins, ref=plain_ref(nm),
